@@ -398,6 +398,7 @@ func Main(chk Check) {
 	results := make([]*Result, n)
 	crashes := make([]string, n)
 	var wg sync.WaitGroup
+	var retryMu sync.Mutex
 	for i := 0; i < n; i++ {
 		wg.Add(1)
 		go func(i int) {
@@ -411,6 +412,21 @@ func Main(chk Check) {
 			cmd.Stderr = &stderr
 			cmd.Stdout = &stderr
 			err := cmd.Run()
+			if err != nil && strings.Contains(err.Error(), "signal: killed") && !strings.Contains(stderr.String(), "fatal error:") {
+				// killed from outside (the kernel's OOM killer on a loaded machine): not an observation
+				// of the code under test; run the shard once more, alone
+				retryMu.Lock()
+				os.RemoveAll(dir)
+				os.MkdirAll(dir, 0o755)
+				cmd = exec.Command(exe, tier, "--worker", strconv.Itoa(i), strconv.Itoa(n))
+				cmd.Dir = dir
+				cmd.Env = append(os.Environ(), "VERIF_HOME="+home)
+				stderr = tailBuf{}
+				cmd.Stderr = &stderr
+				cmd.Stdout = &stderr
+				err = cmd.Run()
+				retryMu.Unlock()
+			}
 			b, rerr := os.ReadFile(filepath.Join(dir, "verif_result.json"))
 			if rerr == nil {
 				var r Result
@@ -430,7 +446,7 @@ func Main(chk Check) {
 	for i, r := range results {
 		if r == nil {
 			msg := crashes[i]
-			if strings.Contains(msg, "fatal error:") || strings.Contains(msg, "panic:") || strings.Contains(msg, "signal:") {
+			if strings.Contains(msg, "fatal error:") || strings.Contains(msg, "panic:") {
 				site := crashSite(msg)
 				total.Violations = append(total.Violations, Violation{Sig: "worker-crash:" + site, Part: "crash",
 					Msg: "worker process died while executing code under test: " + lastLines(msg, 30)})
